@@ -487,3 +487,44 @@ Proof.
   - rewrite (row_gain_gain g (length p)) by assumption. reflexivity.
   - pose proof (P2 x). lia.
 Qed.
+
+(* ---- a symmetry test that only visits the stored entries (for graphs with thousands of
+   vertices, where [symmetricb] -- all pairs -- is not affordable) ---- *)
+Definition symmetricb_fast (g : graph) : bool :=
+  forallb (fun vr => forallb (fun e => wt g (fst vr) (fst e) =? wt g (fst e) (fst vr)) (snd vr))
+          (combine (seq 0 (length g)) g).
+
+Lemma wt_row_no_entry r u : (forall e, In e r -> fst e <> u) -> wt_row r u = 0.
+Proof.
+  unfold wt_row. induction r as [|e t IH]; intros H; [reflexivity|].
+  cbn [map]. rewrite sumZ_cons, IH by (intros e' He'; apply H; right; exact He').
+  destruct (Nat.eqb_spec (fst e) u) as [E|E]; [exfalso; apply (H e); [left; reflexivity|exact E]|reflexivity].
+Qed.
+
+Lemma symmetricb_fast_entry g v e : symmetricb_fast g = true -> (v < length g)%nat -> In e (rowof g v) ->
+  wt g v (fst e) = wt g (fst e) v.
+Proof.
+  intros H Lv He. unfold symmetricb_fast in H. rewrite forallb_forall in H.
+  assert (Hin : In (v, nth v g []) (combine (seq 0 (length g)) g)).
+  { replace (v, nth v g []) with (nth v (combine (seq 0 (length g)) g) (0%nat, [])).
+    - apply nth_In. rewrite combine_length, seq_length. lia.
+    - rewrite combine_nth by (rewrite seq_length; reflexivity). rewrite seq_nth by lia. reflexivity. }
+  specialize (H _ Hin). cbn [fst snd] in H. rewrite forallb_forall in H. apply Z.eqb_eq. apply H. exact He.
+Qed.
+
+Lemma symmetricb_fast_ok g : symmetricb_fast g = true -> symmetric g.
+Proof.
+  intros H u v.
+  assert (Half : forall a b, (exists e, In e (rowof g a) /\ fst e = b) -> wt g a b = wt g b a).
+  { intros a b [e [He Eb]]. destruct (Nat.lt_ge_cases a (length g)) as [L|L].
+    - rewrite <- Eb. apply symmetricb_fast_entry; assumption.
+    - unfold rowof in He. rewrite nth_overflow in He by lia. destruct He. }
+  assert (Dec : forall a b, (exists e, In e (rowof g a) /\ fst e = b) \/ (forall e, In e (rowof g a) -> fst e <> b)).
+  { intros a b. induction (rowof g a) as [|e t IH]; [right; intros e []|].
+    destruct (Nat.eq_dec (fst e) b) as [E|E]; [left; exists e; split; [left; reflexivity|exact E]|].
+    destruct IH as [[e' [He' E']]|IH]; [left; exists e'; split; [right; exact He'|exact E']|].
+    right. intros e' [<-|He']; [exact E|apply IH; exact He']. }
+  destruct (Dec u v) as [Huv|Nuv]; [apply Half; exact Huv|].
+  destruct (Dec v u) as [Hvu|Nvu]; [symmetry; apply Half; exact Hvu|].
+  unfold wt. rewrite (wt_row_no_entry _ _ Nuv), (wt_row_no_entry _ _ Nvu). reflexivity.
+Qed.
